@@ -396,3 +396,70 @@ Proof.
   intros H. destruct pass_override_refuted_l as [r' [Hrun [Hl [Hok Hb]]]].
   specialize (H _ _ _ _ _ Hrun Hl Hok). apply within_b_spec in H. rewrite H in Hb. discriminate.
 Qed.
+
+(* ------------------------------------------------------------------ mark / unmark histories *)
+
+Lemma mem_srem2 x c l : mem x (srem c l) = mem x l && negb (Nat.eqb c x).
+Proof.
+  induction l as [|y t IH]; simpl; [reflexivity|].
+  destruct (Nat.eqb c y) eqn:Ecy; simpl.
+  - rewrite IH. apply Nat.eqb_eq in Ecy; subst y.
+    destruct (Nat.eqb x c) eqn:Exc; simpl; [|reflexivity].
+    apply Nat.eqb_eq in Exc; subst x. rewrite Nat.eqb_refl. simpl. now rewrite andb_false_r.
+  - rewrite IH. destruct (Nat.eqb x y) eqn:Exy; simpl; [|reflexivity].
+    apply Nat.eqb_eq in Exy; subst y. now rewrite Ecy.
+Qed.
+
+Lemma unmark_fold tr x : forall l acc,
+  mem x (fold_left (fun acc y => if mem y tr then srem y acc else acc) l acc) =
+  mem x acc && negb (existsb (fun y => Nat.eqb y x && mem y tr) l).
+Proof.
+  induction l as [|y t IH]; intros acc; simpl; [now rewrite andb_true_r|].
+  rewrite IH. destruct (mem y tr); simpl.
+  - rewrite mem_srem2. destruct (Nat.eqb y x); simpl; [now rewrite andb_false_r | now rewrite andb_true_r].
+  - now rewrite andb_false_r.
+Qed.
+
+(* after UnmarkForDeletion(l) no tracked id of l is marked, wherever it stands in l and whatever
+   else (untracked ids included) l contains; ids outside l keep their marking *)
+Lemma unmark_clears_l : forall s l x,
+  (In x l -> mem x (m_tracked s) = true -> mem x (m_marked (mstep s (MUnmark l))) = false) /\
+  (~ In x l -> mem x (m_marked (mstep s (MUnmark l))) = mem x (m_marked s)).
+Proof.
+  intros s l x. simpl. rewrite unmark_fold. split.
+  - intros Hin Htr. assert (He : existsb (fun y => Nat.eqb y x && mem y (m_tracked s)) l = true).
+    { apply existsb_exists. exists x. split; [exact Hin|]. now rewrite Nat.eqb_refl, Htr. }
+    rewrite He. now rewrite andb_false_r.
+  - intros Hnin. assert (He : existsb (fun y => Nat.eqb y x && mem y (m_tracked s)) l = false).
+    { destruct (existsb _ l) eqn:E; [|reflexivity]. apply existsb_exists in E. destruct E as [y [Hy Hb]].
+      apply andb_true_iff in Hb. destruct Hb as [Hb _]. apply Nat.eqb_eq in Hb. subst y. contradiction. }
+    rewrite He. now rewrite andb_true_r.
+Qed.
+
+Lemma mark_fold tr x : forall l acc,
+  mem x (fold_left (fun acc y => if mem y tr then sadd y acc else acc) l acc) =
+  mem x acc || existsb (fun y => Nat.eqb y x && mem y tr) l.
+Proof.
+  induction l as [|y t IH]; intros acc; simpl; [now rewrite orb_false_r|].
+  rewrite IH. destruct (mem y tr); simpl.
+  - unfold sadd. destruct (mem y acc) eqn:Ey; simpl.
+    + destruct (Nat.eqb y x) eqn:E; simpl; [|reflexivity]. apply Nat.eqb_eq in E; subst. rewrite Ey. reflexivity.
+    + rewrite (Nat.eqb_sym x y). destruct (Nat.eqb y x); simpl; [now rewrite orb_true_r | reflexivity].
+  - now rewrite andb_false_r.
+Qed.
+
+(* only tracked nodes are ever marked, over every history *)
+Lemma marked_tracked_l : forall h tracked x,
+  mem x (m_marked (mrun tracked h)) = true -> mem x (m_tracked (mrun tracked h)) = true.
+Proof.
+  intros h tracked. unfold mrun.
+  assert (G : forall s, (forall x, mem x (m_marked s) = true -> mem x (m_tracked s) = true) ->
+              forall x, mem x (m_marked (fold_left mstep h s)) = true -> mem x (m_tracked (fold_left mstep h s)) = true).
+  { induction h as [|o t IH]; intros s Hs; [exact Hs|]. simpl. apply IH. intros x. destruct o as [l|l|y]; simpl.
+    - rewrite mark_fold. intros H. apply orb_true_iff in H. destruct H as [H|H]; [now apply Hs|].
+      apply existsb_exists in H. destruct H as [y [_ Hb]]. apply andb_true_iff in Hb. destruct Hb as [He Hm].
+      apply Nat.eqb_eq in He. now subst.
+    - rewrite unmark_fold. intros H. apply andb_true_iff in H. now apply Hs.
+    - rewrite !mem_srem2. intros H. apply andb_true_iff in H. destruct H as [H1 H2]. rewrite (Hs x H1), H2. reflexivity. }
+  apply G. intros x H. discriminate.
+Qed.
